@@ -112,8 +112,11 @@ private:
 };
 
 // ------------------------------------------------------ value <-> bytes ----
+// entry i of a group: random access (operator[]) where the group offers it,
+// forward iteration otherwise; the iteration path of flat groups is checked
+// separately (group_ops::entry_addrs)
 template<typename G, typename I>
-auto nth(G g, I i) -> decltype(*g.begin())
+auto nth_iter(G g, I i) -> decltype(*g.begin())
 {
     auto it = g.begin();
     for(I k = 0; k < i; ++k)
@@ -121,6 +124,18 @@ auto nth(G g, I i) -> decltype(*g.begin())
         ++it;
     }
     return *it;
+}
+template<typename G, typename I>
+typename std::enable_if<sbepp::is_flat_group<G>::value, decltype(*std::declval<G>().begin())>::type
+    nth(G g, I i)
+{
+    return g[static_cast<typename G::size_type>(i)];
+}
+template<typename G, typename I>
+typename std::enable_if<!sbepp::is_flat_group<G>::value, decltype(*std::declval<G>().begin())>::type
+    nth(G g, I i)
+{
+    return nth_iter(g, i);
 }
 
 template<typename T>
@@ -194,6 +209,8 @@ struct group_ops
     // returns offset of the returned header view
     std::function<std::ptrdiff_t(char*, std::size_t, ipath, std::uint64_t)> fill_header;
     std::function<void(char*, std::size_t, ipath, std::uint64_t)> resize;
+    // start offsets of all entries obtained by range-for iteration
+    std::function<std::vector<std::ptrdiff_t>(char*, std::size_t, ipath)> entry_addrs;
 };
 struct data_ops
 {
@@ -810,6 +827,15 @@ void assign_data(D d, const bytes& b)
             {                                                                 \
                 auto g = LV(M{p, n}, ip).NAME();                              \
                 g.resize(static_cast<typename decltype(g)::size_type>(c));    \
+            },                                                                \
+            [](char* p, std::size_t n, ::vh::ipath ip)                        \
+                -> std::vector<std::ptrdiff_t>                                \
+            {                                                                 \
+                std::vector<std::ptrdiff_t> r;                                \
+                auto g = LV(M{p, n}, ip).NAME();                              \
+                for(auto e : g)                                               \
+                    r.push_back(::sbepp::addressof(e) - p);                   \
+                return r;                                                     \
             }})
 
 #define VH_REG_DATA(KEY, M, LV, NAME)                                         \
